@@ -123,8 +123,22 @@ def run(rep, ctx):
         for c in cs:
             for o in (OPTS if tier == 'thorough' or rng.random() < 0.3 else OPTS[:4]):
                 cases.append((c, h, o, grp))
-    lines = ['is_not_html %s %s %s' % (S(c), HEADERS(h), S(o)) for (c, h, o, _) in cases]
-    model = run_driver(lines) if ctx['model_available'] else [None] * len(cases)
+    # bodies that begin with a LOT of whitespace (beyond any plausible sniffing window: 512, 1024, 2048, 4096, 64 KB): the documented
+    # rule strips all of it
+    longws = [' ' * 507, ' ' * 509, '\n' * 1030, ' \t\r\n' * 520, '\r\n' * 2100, '\x0c ' * 4200, ' ' * 70000]
+    reps = [None, {}, {'Content-Type': 'text/plain'}, {'Content-Type': 'text'}, {'Content-Type': 'application/octet-stream; x=y'},
+            {'Content-Type': 'text/html'}, {'Content-Type': 'image/jpeg'}]
+    for w in longws:
+        for sig in SIGS + ['<html><body>hi</body></html>', 'plain words', NEAR[0]]:
+            for h in reps:
+                for o in OPTS[:4]:
+                    cases.append((w + sig + ' rest', h, o, None))
+    short = [i for i, (c, _, _, _) in enumerate(cases) if len(c) <= 9000]
+    lines = ['is_not_html %s %s %s' % (S(cases[i][0]), HEADERS(cases[i][1]), S(cases[i][2])) for i in short]
+    model = [None] * len(cases)
+    if ctx['model_available']:
+        for i, m in zip(short, run_driver(lines)):
+            model[i] = m
     n_bad = 0
     groups = {}
     dist = {}
